@@ -36,11 +36,20 @@ def run(tier, seed, replay=None, pid="C04"):
     if rep["evaluations"] and rep["inconclusive"] > 0.1 * rep["evaluations"]:
         raise vlib.Infra("too many inconclusive replays")
     ck.add_report(rep)
+    if pid == "C04":
+        # failures inside concurrent schedules: announce-triggered syncs that fail while other announcements arrive
+        from props import subfam
+        lines, wd = subfam.run_family(ck, binary, "faults", 200 if tier == "quick" else 4000, seed, strict=True)
+        shutil.rmtree(wd, ignore_errors=True)
+        ck.cov["failed_syncs_in_schedules"] = sum(1 for ln in lines if '"g.failed"' in ln)
+        ck.cov["schedules_rule"] = ("family 'faults' of the Subscriber schedules (gate scheduler, 1-3 publishers, 1-3 block requests answered with status 500 at seeded points, "
+                                    "failed heads announced again): TLC validates on the trace that every announce-triggered sync that ran sends exactly one notification "
+                                    "before its goroutine ends, that a re-announced failed head is acted on, and the end-of-run quiescence clause")
     ck.cov["rule"] = ("one behaviour per terminal TLC state: a 3-advertisement chain, real Publisher behind a fault-injecting proxy (plain-HTTP mount or "
                       "libp2p-HTTP discovery), real Subscriber; each sync observed for result, hook calls, number of stored blocks, a full audit of the "
                       "destination store (every block re-hashed with the function and length of its CID), latest-synced, notifications; body-class faults "
                       "are concretised in several variants (bit position / truncation length / substituted block) and digest specifications "
-                      "(sha2-256 full and truncated to 20 and 16 bytes, sha2-512, blake3)")
+                      "(sha2-256 full and truncated to 20 and 16 bytes, sha2-512, blake3, and the identity multihash whose digest is the content itself)")
     ck.cov["exhaustive"] = True
     ck.assumptions += ["a connection reset that net/http transparently retries never reaches the library; such runs are counted as tolerated",
                        "publishers with a single address; collision freedom of >=16-byte digests"]
